@@ -58,13 +58,17 @@ func computeLoops(fn *ssa.Function) *loopInfo {
 
 type effect struct {
 	all   bool
+	// other: keys written through something else than a temporary object allocated by the same code
+	// (a key in `keys` but not in `other` is written through fresh objects only: older objects keep
+	// their contents, which the loop havoc states as a frame hypothesis)
+	other map[string]bool
 	keys  map[string]string
 	cells map[*ssa.Alloc]bool
 	alloc bool
 }
 
 func newEffect() *effect {
-	return &effect{keys: map[string]string{}, cells: map[*ssa.Alloc]bool{}}
+	return &effect{keys: map[string]string{}, cells: map[*ssa.Alloc]bool{}, other: map[string]bool{}}
 }
 
 func (e *effect) merge(o *effect) {
@@ -76,6 +80,9 @@ func (e *effect) merge(o *effect) {
 	}
 	for k, v := range o.keys {
 		e.keys[k] = v
+	}
+	for k := range o.other {
+		e.other[k] = true
 	}
 }
 
@@ -159,9 +166,48 @@ func (P *Program) funcEffects1(fn *ssa.Function, depth int) *effect {
 	return e
 }
 
-func (P *Program) blocksEffect(fn *ssa.Function, blocks []*ssa.BasicBlock, e *effect, depth int) {
+func isTempAlloc(a *ssa.Alloc) bool {
+	switch a.Comment {
+	case "complit", "varargs", "new", "makeslice":
+		return a.Heap
+	}
+	return false
+}
+
+func (P *Program) blocksEffect(fn *ssa.Function, blocks []*ssa.BasicBlock, e0 *effect, depth int) {
 	for _, b := range blocks {
 		for _, in := range b.Instrs {
+			// effects of one instruction; writes that are not provably to a fresh temporary go to `other`
+			e := newEffect()
+			fresh := false
+			switch i := in.(type) {
+			case *ssa.Store:
+				if ra := rootAlloc(i.Addr); ra != nil && isTempAlloc(ra) {
+					fresh = true
+				}
+			case *ssa.Alloc:
+				fresh = isTempAlloc(i)
+			}
+			defer func(e *effect, fresh bool) {
+				if e.all {
+					e0.all = true
+				}
+				if e.alloc {
+					e0.alloc = true
+				}
+				for k, v := range e.keys {
+					e0.keys[k] = v
+					if !fresh {
+						e0.other[k] = true
+					}
+				}
+				for k := range e.other {
+					e0.other[k] = true
+				}
+				for c := range e.cells {
+					e0.cells[c] = true
+				}
+			}(e, fresh)
 			switch i := in.(type) {
 			case *ssa.Store:
 				P.addrEffect(i.Addr, e)
